@@ -17,7 +17,7 @@ for sid in sorted(os.listdir(os.path.join(HERE, 'seeded'))):
         rows.append((sid, res['exit'], res['wall'], idents[:3]))
     except Exception as e:  # noqa
         rows.append((sid, 'ERR', 0, [p.stdout[-200:] + p.stderr[-200:]]))
-    print('%-7s exit=%-3s wall=%6.1fs %s' % rows[-1][:3] + (' %s' % rows[-1][3],), flush=True)
+    print('%-7s exit=%-3s wall=%6.1fs %s' % tuple(rows[-1]), flush=True)
 missed = [r[0] for r in rows if r[1] != 1]
 print('caught %d / %d; not caught: %s' % (len(rows) - len(missed), len(rows), missed))
 out = os.environ.get('SEEDED_REPORT', '/tmp/wt/seeded-report.json')
